@@ -341,6 +341,10 @@ def visits_all(ctx, cfg, a, base, length, sink, sink_iter_res, sink_slice_res):
         return False, "calls outside the recognised complete traversals: %s" % sorted({c.fn for c in others})
     nexts = [c for c in pc if c.fn == "core::iter::Iterator::next"]
     fes = [c for c in pc if c.fn == "core::iter::Iterator::for_each"]
+    if len(sinks) == 1 and not nexts and not fes and sinks[0].args[0][0] == "P" and sinks[0].args[0][3] is None and a.reaches(sinks[0].bb, sinks[0].bb):
+        r_ = _counting_loop(a, sinks[0], base, length, sink)
+        if r_ is not None:
+            return r_
     if len(sinks) == 1 and not nexts and not fes:
         z = sinks[0]
         recv = z.args[0]
@@ -403,6 +407,78 @@ def visits_all(ctx, cfg, a, base, length, sink, sink_iter_res, sink_slice_res):
         ok, det = _loop_cover(a, n, good, rets)
         return ok and none_only, "form D: one next() site on the unadapted full-view iterator; returns only on None: %s; %s" % (none_only, det)
     return False, "no recognised complete traversal (sink calls=%d, next sites=%d, for_each=%d)" % (len(sinks), len(nexts), len(fes))
+
+
+def _counting_loop(a, z, base, length, sink):
+    """form F: let mut i = 0; while i < N { sink(&mut *base.add(i)); i += 1 } - by induction on the counter every index 0..N is visited once, in order.
+    Returns None if the sink's argument is not indexed by a loop counter at all."""
+    from .poly import prove, Poly as _P
+    p = z.args[0]
+    if p[1] != base or not z.targs:
+        return None
+    S_ = a.tenv.size(z.targs[0])
+    phis = [x for x in p[2].atoms() if isinstance(x, tuple) and x and x[0] == "phi" and isinstance(x[2], tuple) and x[2][0][0] == "local" and x[2][1] == ()]
+    if len(phis) != 1:
+        return None
+    ph = phis[0]
+    H, cell = ph[1], ph[2]
+    idx = _P.atom(ph)
+    if not prove(("==", p[2] - idx * S_), a.poly_facts(z.facts)):
+        return False, "form F: the sink is not applied to element i of the view for the loop counter i"
+    asg = [s_ for s_ in a.assigns if s_["cell"] == cell and s_["val"][0] == "I"]
+    in_loop = [s_ for s_ in asg if a.reaches(s_["site"][0], H) and a.reaches(H, s_["site"][0])]
+    init = [s_ for s_ in asg if s_ not in in_loop]
+    init_ok = bool(init) and all(s_["val"][1] == _P.const(0) and a.dominates(s_["site"][0], H) for s_ in init)
+    step_ok = len(in_loop) == 1 and in_loop[0]["val"][1] == idx + _P.const(1)
+    # loop body: blocks between H and the way back to H; no edge leaves it except through H
+    body, work = set(), [s2 for s2 in a.edges.get(H, []) if not a.blocks[s2]["cleanup"] and a.reaches(s2, H)]
+    while work:
+        x = work.pop()
+        if x in body or x == H or a.blocks[x]["cleanup"]:
+            continue
+        body.add(x)
+        work.extend(a.edges.get(x, []))
+    closed = all(s2 in body or s2 == H or a.blocks[s2]["cleanup"] for x in body for s2 in a.edges.get(x, []))
+    exits = [s2 for s2 in a.edges.get(H, []) if not a.blocks[s2]["cleanup"] and s2 not in body]
+    exit_ok = bool(exits) and all(any(prove((">=", idx - length), a.poly_facts(fs)) for fs in a.edge_facts.get((H, e), [])) and
+                                  all(prove((">=", idx - length), a.poly_facts(fs)) for fs in a.edge_facts.get((H, e), [])) for e in exits)
+    enter_ok = all(all(prove((">=", length - idx - _P.const(1)), a.poly_facts(fs)) for fs in a.edge_facts.get((H, s2), [])) for s2 in a.edges.get(H, []) if s2 in body)
+    # exactly one sink and one step on every way round
+    def once(target_bbs):
+        memo = {}
+
+        def go(bb, stack):
+            if bb in stack:
+                return None
+            if bb in memo:
+                return memo[bb]
+            here = 1 if bb in target_bbs else 0
+            out = set()
+            for s2 in a.edges.get(bb, []):
+                if a.blocks[s2]["cleanup"]:
+                    continue
+                if s2 == H:
+                    out.add(here)
+                elif s2 in body:
+                    r2 = go(s2, stack | {bb})
+                    if r2 is None:
+                        return None
+                    out |= {here + y for y in r2}
+            memo[bb] = out
+            return out
+        res = set()
+        for s2 in a.edges.get(H, []):
+            if s2 in body:
+                r2 = go(s2, frozenset())
+                if r2 is None:
+                    return None
+                res |= r2
+        return res
+    sink_once = once({z.bb}) == {1}
+    step_once = step_ok and once({in_loop[0]["site"][0]}) == {1}
+    ok = init_ok and step_ok and closed and exit_ok and enter_ok and sink_once and step_once
+    return ok, ("form F: counting loop `i = 0; while i < N { %s(element i); i += 1 }`: counter starts at 0: %s; advanced by exactly one per iteration: %s; %s applied to element i exactly once per iteration: %s; "
+                "the loop is entered only under i < N and left only under i >= N: %s/%s; no other exit: %s" % (sink.split("::")[-1], init_ok, step_once, sink.split("::")[-1], sink_once, enter_ok, exit_ok, closed))
 
 
 def _loop_cover(a, n, good, rets):
